@@ -8,8 +8,8 @@ package main
 //   tmgpossub.anchor    bytes=<hex> pos=<n>            anchor.Read(parser, pos)
 //   tmgpossub.markarray bytes=<hex> pos=<n> num=<int>  markarray.Read(parser, pos, num)
 //
-// Outcome: err:io | err:invalid | err:unsupported | err:other (the key 10*type+format selects a
-// GPOS reader outside this group: types 4-9) | panic | "ok:" + canonical value: a value record is
+// Outcome: err:io | err:invalid | err:unsupported | err:other (lookup type 4-9 with a format of a
+// GPOS reader outside this group; types and formats above 9 are err:invalid since /repo 8867078) | panic | "ok:" + canonical value: a value record is
 // "-" (nil) or its eight 16-bit fields joined by "."; coverage "s-e:i" runs, set "s-e" runs,
 // classdef "s-e:c" runs; GPOS 2.1 is the decoded map sorted by (first, second).
 // The generator registers itself in totalModelGens["gpossub"] and is called from areaTotal.
@@ -203,9 +203,11 @@ func init() {
 			if pos < 0 || tp < 0 || tp > 0xffff {
 				return "bad-case"
 			}
-			if pos+2 <= len(b) {
+			if pos+2 <= len(b) && tp <= 9 {
+				// a valid key of a reader outside this group (lookup types 4-9); types and formats
+				// above 9 are rejected by the repaired dispatcher: the real code runs
 				format := uint16(b[pos])<<8 | uint16(b[pos+1])
-				if totalGpossubOtherKeys[10*uint16(tp)+format] {
+				if format <= 9 && totalGpossubOtherKeys[10*uint16(tp)+format] {
 					return "err:other"
 				}
 			}
@@ -490,7 +492,7 @@ func totalGpossubHeavy(b []byte, pos, tp int) int {
 		return 0
 	}
 	u16 := func(i int) int { return int(b[pos+i])<<8 | int(b[pos+i+1]) }
-	if uint16(10*tp+u16(0)) != 22 {
+	if tp != 2 || u16(0) != 2 {
 		return 0
 	}
 	c1, c2 := u16(12), u16(14)
@@ -646,7 +648,10 @@ func totalGpossubStructured(r *Rng, thorough bool) []totalGpossubTab {
 	body := cat(W(6, 1, 7), cov3)
 	for _, tf := range [][2]int{{1, 0}, {1, 3}, {1, 11}, {1, 12}, {1, 21}, {1, 31}, {1, 61}, {1, 81}, {2, 3}, {2, 0}, {2, 11}, {2, 65527},
 		{2, 65528}, {3, 2}, {3, 0}, {3, 11}, {3, 65517}, {3, 65518}, {3, 65527}, {3, 65528}, {1, 0xffff}, {0, 11}, {0, 1}, {4, 1}, {9, 1},
-		{6554, 7}, {6555, 1}, {65535, 21}, {65535, 22}} {
+		{6554, 7}, {6555, 1}, {65535, 21}, {65535, 22},
+		// the former key collisions (uint16 wrap): all err:invalid since the repair
+		{6560, 7}, {6554, 0xffff}, {1, 0xffcf}, {2, 65497}, {3, 65497}, {9, 0xffb7}, {10, 1}, {10, 0xffad}, {6553, 7}, {6553, 17},
+		{4, 1}, {5, 1}, {6, 1}, {7, 1}, {7, 3}, {8, 2}, {9, 1}, {4, 2}, {1, 9}, {1, 10}, {2, 9}, {3, 9}, {9, 9}, {9, 10}} {
 		add("dispatch-"+strconv.Itoa(tf[0])+"-"+strconv.Itoa(tf[1]), tf[0], cat(W(tf[1]), body))
 	}
 	add("empty", 1, nil)
@@ -1016,6 +1021,13 @@ func totalGpossubGen(c *Ctx, r *Rng, seeds []totalSeed) {
 				b[i] = 0
 				b[i+1] = byte(r.Intn(40))
 			}
+		}
+		if r.Chance(1, 8) && len(b) >= 2 {
+			// a former key collision: 10*type+format wraps (uint16) to a key of this group
+			tp = Pick(r, []int{0, 4, 5, 9, 10, 11, 6553, 6554, 6560, 65535})
+			f := uint16(Pick(r, []int{11, 12, 21, 22, 31}) - 10*tp)
+			b[0], b[1] = byte(f>>8), byte(f)
+			c.Stat("tmgpossub:read:collision", strconv.Itoa(tp))
 		}
 		pos := 0
 		if r.Chance(1, 5) {
